@@ -7,7 +7,7 @@ import ast
 from ..cfg import Oracle, build_cfg
 from ..index import AnalysisError, FuncInfo, Repo, UNKNOWN, norm, unparse
 from ..report import Ctx
-from ..terms import NONE, Evaluator, const, evaluator, show
+from ..terms import NONE, Evaluator, const, evaluator, show, subterms
 from ..util import Facts, arg, callee_attr, calls_in_node, cfg_nodes_with_call, xtext
 from .C20 import check_explicit_id
 
@@ -330,6 +330,57 @@ def check(ctx: Ctx) -> None:
     check_kill_on_timeout(ctx, "C05.b")
 
     check_explicit_id(ctx, "C05.c")
+
+    with ctx.obligation("C05.e", "kill-work-is-parallel-and-complete") as ob:
+        # (1) every (terminate, kill) pair is handed to the pool before the first reply is waited for: a lazily evaluated
+        #     sequence of spawns (generator) would handle the stuck members one after another, n * timeout instead of ~timeout
+        sp = [c for c in repo.calls_in(fs) if callee_attr(c) == "spawn"]
+        ob.require(len(sp) >= 1, "safe_terminate: spawn of the per-pair worker not found")
+        for c in sp:
+            lazy = None
+            child = c
+            for anc in repo.ancestors(c):
+                if anc is fs.node:
+                    break
+                if isinstance(anc, ast.GeneratorExp):
+                    par = repo.parent(anc)
+                    fname_ = unparse(par.func).split(".")[-1] if isinstance(par, ast.Call) else ""
+                    # consumed on the spot by a container constructor / extend
+                    eager = isinstance(par, ast.Call) and fname_ in ("list", "tuple", "sorted", "set", "frozenset", "deque", "extend", "extendleft") and par.args[:1] == [anc]
+                    if not eager:
+                        lazy = anc
+                if isinstance(anc, ast.Lambda):
+                    lazy = anc
+                child = anc
+            ob.site(fs, c, "the per-pair workers are all spawned before any is waited for", lazy=lazy is not None)
+            if lazy is not None:
+                ob.violation(fs, c, "the workers that terminate/kill the members are spawned lazily (generator): each one starts only when the previous member "
+                                    "has been waited for, so Group.terminate(timeout) takes about len(group) * timeout with several stuck members",
+                             construct="lazy spawn")
+        # (2) the gateways that have exited and await joining are forgotten only after they were handed to safe_terminate
+        evt2 = evaluator(repo, ft)
+        npass = 0
+        bad2 = set()
+        TOJ = ("sym", "self._gateways_to_join")
+        for _p, st in all_paths(evt2):
+            evs_ = st.events
+            def reads_tojoin(e):
+                return any(x == TOJ for a_ in list(e.args) + list(e.kwargs.values()) for x in subterms(a_))
+            sts = [i for i, e in enumerate(evs_) if e.kind == "call" and e.callee == "safe_terminate" and reads_tojoin(e)]
+            clr = [(i, e) for i, e in enumerate(evs_) if (e.kind in ("store", "del") and e.recv == TOJ) or (e.kind == "call" and e.recv == TOJ and e.attr in ("clear", "pop", "remove"))
+                   or (e.kind == "assign" and e.target == "self._gateways_to_join")]
+            if sts:
+                npass += 1
+            for (i, e) in clr:
+                # within one pass of the loop: a clear that is followed by a safe_terminate call without an intervening exit() round is premature
+                nxt = [j for j in sts if j > i]
+                prev = [j for j in sts if j < i]
+                if nxt and (not prev) and id(e.node) not in bad2:
+                    bad2.add(id(e.node))
+                    ob.violation(ft, e.node, "the list of exited gateways is emptied before it was handed to safe_terminate: gateways the user exit()ed before "
+                                             "terminate() are never joined, waited for or killed", construct="to-join list cleared before safe_terminate")
+        ob.site(ft, ft.node, "exited gateways are forgotten only after safe_terminate handled them", passes=npass, ok=not bad2)
+        ob.require(npass >= 1, "terminate: no path calls safe_terminate")
 
     with ctx.obligation("C05.d", "exit-order") as ob:
         loops = [n for n in repo.own_nodes(ft) if isinstance(n, ast.While)]
